@@ -495,6 +495,23 @@ SEEDED = [
     ("r3-C16-2", "C16", "R1c"),
     ("r3-C19-2", "C19", "K4"),
     ("r3-C20-2", "C20", "HD2"),
+    # round 4 (steered to structural changes; rules added from the misses:
+    # CLS1, FR1, TS1, TP1, PM1, DER1, LK1, K2 returns, R1 delegate-arg,
+    # V2 merged arm, C2/SH5 armed more widely, path exploration)
+    ("r4-C01-1", "C01", "AX1"), ("r4-C01-2", "C01", "FR1"),
+    ("r4-C03-1", "C03", "TS1"), ("r4-C03-2", "C03", "CLS1"),
+    ("r4-C04-1", "C04", "SH5"), ("r4-C04-2", "C04", "SH1"),
+    ("r4-C05-1", "C05", "TP1"), ("r4-C05-2", "C05", "INV"),
+    ("r4-C06-1", "C06", "V1"), ("r4-C06-2", "C06", "M2"),
+    ("r4-C08-1", "C08", "PM1"), ("r4-C08-2", "C08", "DU"),
+    ("r4-C09-1", "C09", "V2"), ("r4-C10-2", "C10", "DV1"),
+    ("r4-C11-1", "C11", "FR1"), ("r4-C11-2", "C11", "C2"),
+    ("r4-C12-1", "C12", "SH5"), ("r4-C12-2", "C12", "P1q"),
+    ("r4-C13-1", "C13", "LK1"), ("r4-C13-2", "C13", "C2"),
+    ("r4-C14-1", "C14", "AX1"), ("r4-C14-2", "C14", "S2"),
+    ("r4-C15-1", "C15", "R1"), ("r4-C15-2", "C15", "SH5"),
+    ("r4-C19-1", "C19", "DER1"), ("r4-C20-1", "C20", "C2"),
+    ("r4-C20-2", "C20", "K2"),
 ]
 # seeded changes no static rule here decides (numerical / heuristic):
 # C14-1, C15-1, C15-2, C19-1, C20-2, r2-C12-2, r2-C14-1, r2-C15-2, r2-C19-1,
